@@ -2,6 +2,7 @@ INIT Init
 NEXT Next
 CONSTANTS
   NPaths = 3
+  Stale = {1, 2}
   Ks = {1,2,3}
   MHs = {1,2,3}
   PEs = {1,2,3}
